@@ -471,6 +471,12 @@ class NArray:
             it[item[1:]] = value
             self[item[0]] = it
             return
+        if isinstance(item, S):
+            # a write at a secret index recomputes every position by selection: rows become fresh arrays
+            i = self._ix(item)
+            self.arr = [NArray(r) if isinstance(r, NArray) else r for r in self.arr]
+            self.arr[i] = NArray(value) if isinstance(value, NArray) else value
+            return
         self.arr[self._ix(item)] = value
 
 
